@@ -30,6 +30,7 @@ struct Thr
   const void *wait_cv = nullptr;
   const void *wait_m  = nullptr;
   bool timed          = false;
+  uint64_t dur_ns     = 0;
   int wake_reason     = -1;  // set when woken: 0 notify, 1 timeout, 2 spurious
   int join_target     = -1;
   std::function<void()> fn;
@@ -146,7 +147,7 @@ void mutex_unlock(const void *m)
   g_step_trace += "unlock " + obj_name(m);
 }
 
-int cv_wait(const void *cv, const void *m, bool timed)
+int cv_wait(const void *cv, const void *m, bool timed, uint64_t dur_ns)
 {
   if (!t_me)
   {
@@ -161,6 +162,7 @@ int cv_wait(const void *cv, const void *m, bool timed)
   me.wait_cv       = cv;
   me.wait_m        = m;
   me.timed         = timed;
+  me.dur_ns        = dur_ns;
   me.wake_reason   = -1;
   me.st            = CVWAIT;
   if (!g_step_trace.empty()) g_step_trace += ",";
@@ -284,6 +286,7 @@ std::string wake_timeout(int tid)
   if (tid < 0 || tid >= (int)g_thr.size()) return "x";
   Thr &t = *g_thr[tid];
   if (t.st != CVWAIT || !t.timed) return "x";
+  g_now += t.dur_ns;
   t.wake_reason = 1; t.kind = "relock"; t.obj = t.wait_m; t.st = PARKED;
   return "timeout T" + std::to_string(tid);
 }
@@ -332,7 +335,7 @@ int nthreads()
   return (int)g_thr.size();
 }
 
-bool drain(int max_steps, std::string *trace)
+bool drain(int max_steps, std::string *trace, int ignore)
 {
   for (int k = 0; k < max_steps; k++)
   {
@@ -341,7 +344,7 @@ bool drain(int max_steps, std::string *trace)
     for (int i = 0; i < n; i++)
     {
       if (finished(i)) continue;
-      all_done = false;
+      if (i != ignore) all_done = false;
       if (runnable(i))
       {
         std::string s = run(i);
